@@ -86,13 +86,15 @@ def moment(rsl, n):
     if rsl.reg is not None:
         a = rsl.args["reg"]
         for lo, hi in zip(cuts[:-1], cuts[1:]):
-            v = quad(lambda z: z ** (n - 1) * rsl.reg(z, a), lo, hi, **kw)[0]
+            v = quad(lambda z: 0.0 if z >= 1.0 else z ** (n - 1) * rsl.reg(z, a), lo, hi, **kw)[0]
             tot += v
             sc += abs(v)
     if rsl.sing is not None:
         a = rsl.args["sing"]
         for lo, hi in zip(cuts[:-1], cuts[1:]):
-            v = quad(lambda z: (z ** (n - 1) - 1.0) * rsl.sing(z, a), lo, hi, **kw)[0]
+            # after many bisections a node of the last piece can round to exactly 1.0, where 1/(1-z) divides by zero (harness error at
+            # seed 1 once the draw sequence changed); the integrand has a finite limit there and a single point carries no weight
+            v = quad(lambda z: 0.0 if z >= 1.0 else (z ** (n - 1) - 1.0) * rsl.sing(z, a), lo, hi, **kw)[0]
             tot += v
             sc += abs(v)
     if rsl.loc is not None:
@@ -137,6 +139,7 @@ def cases(draw, tier="quick"):
     if meta["kind"] == "g1" and pto > 2:
         pto = 2
     th["PTO"] = meta["pto"] = pto
+    configs.split_orders(draw, th, meta)
     cfg["clause"] = clause
     return cfg
 
